@@ -545,7 +545,8 @@ def r16_4(ctx, rc):
     # the write happens after the user function returned
     N = c02._names(ctx)
     root = N['root']
-    sg = ctx.E.super(root, lambda g: False)
+    sg = ctx.helpers_graph(root, stop=(N['commit'].qualname,
+                                      N['rollback'].qualname))
     w = Q.first_unguarded(
         sg, [sg.entry],
         lambda x: x.kind == 'ret' and x.callee == 'USER',
